@@ -2141,3 +2141,104 @@ func cardsFromTable(p *Program, pk *packages.Package, fd *ast.FuncDecl, spell ma
 		return true
 	})
 }
+
+// ---- LEX-3 (offsets): the reader looks at the current state's row only ----
+//
+// Every read of the mode table in PushRune is at an offset computed in this call from the row of
+// the current state (mode[state], the row header, the bisection variables, constants). An offset
+// kept in a field of the state machine from an earlier call (a "last transition" cache) refers to a
+// row of whatever table was current then: after a mode switch, or simply in another row that
+// overlaps it, it reads three unrelated words as a transition.
+func ruleLEX3offsets(c *Ctx, rule string) {
+	ta := c.tmplOrUnres(rule)
+	if ta == nil {
+		return
+	}
+	ti := ta.Variants[0]
+	info := ti.Info
+	r := findLexerReader(ti)
+	if r == nil {
+		c.unres(rule, "template/PushRune/table-offsets", "", "reader not found")
+		return
+	}
+	recv := types.Object(nil)
+	if r.fd.Recv != nil && len(r.fd.Recv.List) == 1 && len(r.fd.Recv.List[0].Names) == 1 {
+		recv = info.Defs[r.fd.Recv.List[0].Names[0]]
+	}
+	// fields of the receiver that may feed an offset: the state number (it selects the row)
+	allowedField := func(fv *types.Var) bool { return fv != nil && fv.Name() == "state" }
+	// locals tainted by another receiver field, transitively
+	tainted := map[types.Object]string{}
+	fieldIn := func(e ast.Expr) string {
+		out := ""
+		ast.Inspect(e, func(m ast.Node) bool {
+			if sel, ok := m.(*ast.SelectorExpr); ok && out == "" {
+				if fv, base := selField(info, sel); fv != nil && base != nil && recv != nil && usesObj(info, base) == recv && !allowedField(fv) {
+					if _, isSlice := fv.Type().Underlying().(*types.Slice); !isSlice { // the mode table itself is not an offset
+						out = fv.Name()
+					}
+				}
+			}
+			if id, ok := m.(*ast.Ident); ok && out == "" {
+				if f, ok := tainted[info.Uses[id]]; ok {
+					out = f
+				}
+			}
+			return true
+		})
+		return out
+	}
+	for changed := true; changed; {
+		changed = false
+		ast.Inspect(r.fd.Body, func(m ast.Node) bool {
+			as, ok := m.(*ast.AssignStmt)
+			if !ok {
+				return true
+			}
+			for i, l := range as.Lhs {
+				id, isId := ast.Unparen(l).(*ast.Ident)
+				if !isId {
+					continue
+				}
+				o := info.Defs[id]
+				if o == nil {
+					o = info.Uses[id]
+				}
+				if o == nil || tainted[o] != "" {
+					continue
+				}
+				var rhs ast.Expr
+				if len(as.Rhs) == len(as.Lhs) {
+					rhs = as.Rhs[i]
+				} else if len(as.Rhs) == 1 {
+					rhs = as.Rhs[0]
+				}
+				if rhs != nil {
+					if f := fieldIn(rhs); f != "" {
+						tainted[o] = f
+						changed = true
+					}
+				}
+			}
+			return true
+		})
+	}
+	n, bad := 0, 0
+	ast.Inspect(r.fd.Body, func(m ast.Node) bool {
+		ix, ok := m.(*ast.IndexExpr)
+		if !ok || r.modeVar == nil || usesObj(info, ix.X) != r.modeVar {
+			return true
+		}
+		n++
+		if f := fieldIn(ix.Index); f != "" {
+			bad++
+			c.bad(rule, "template/PushRune/table-offsets", ti.Pos(ix.Pos()), "`%s` reads the mode table at an offset that comes from the field `%s`, i.e. from an earlier call: it is not tied to the row of the current state of the current mode (after @push_mode/@pop_mode, or in an overlapping row, three unrelated words are read as a transition)", exprString(ix), f)
+		}
+		return true
+	})
+	if n < 6 {
+		c.unres(rule, "template/PushRune/table-reads", ti.Pos(r.fd.Pos()), "only %d reads of the mode table found in PushRune", n)
+	} else if bad == 0 {
+		c.ok(rule, "template/PushRune/table-offsets", ti.Pos(r.fd.Pos()), "all %d reads of the mode table use offsets computed in this call from the current state's row", n)
+	}
+}
